@@ -14,6 +14,7 @@ CONSTANTS
   PkgReplace = FALSE
   MaxFault = 2
   MaxCrash = 2
+  Planned = FALSE
   GenDepth = 0
 VIEW view
 INVARIANT TypeOK
